@@ -803,10 +803,10 @@ def rule_r9(ctx):
 
 
 def run(ctx):
-    rule_r1(ctx)
-    rule_r2(ctx)
-    rule_r3(ctx)
-    rule_r4(ctx)
-    rule_r7(ctx)
-    rule_r8(ctx)
-    rule_r9(ctx)
+    ctx.guard(rule_r1)
+    ctx.guard(rule_r2)
+    ctx.guard(rule_r3)
+    ctx.guard(rule_r4)
+    ctx.guard(rule_r7)
+    ctx.guard(rule_r8)
+    ctx.guard(rule_r9)
